@@ -547,13 +547,19 @@ pub const SEEDS: [&str; 40] = [
 
 const MUT_BYTES: &[u8] = b"0159+-.eEiInNfFtTyYsSaA()xX _,\x00\x7f";
 
+/// every ASCII byte: case-folding tricks (`b | 0x20`, `b & 0xdf`, `b ^ 0x20`) make unexpected bytes alias token characters
+fn all_ascii() -> Vec<u8> {
+    (0u8..0x80).collect()
+}
+
 /// single-byte substitutions / insertions / deletions of valid numerals
 pub fn g_mutations(o: &mut Out, types: &[&str]) {
     for seed in SEEDS {
         let b = seed.as_bytes();
         let mut outs: Vec<Vec<u8>> = vec![b.to_vec()];
+        let ascii = all_ascii();
         for i in 0..=b.len() {
-            for &c in MUT_BYTES {
+            for &c in &ascii {
                 let mut v = b.to_vec();
                 v.insert(i, c);
                 outs.push(v);
